@@ -214,6 +214,10 @@ def scalar_cases():
         ("dot-linear", sp.Eq(V.VectorDot(va, vb) * x, c + x), [sp.Ne(V.VectorDot(va, vb) - 1, 0)]),
         ("norm-quadratic", sp.Eq(x**2, V.VectorNorm(va)**2 + 1), []),
         ("rational", sp.Eq(a / x, b), [b != 0, a != 0]),
+        # equations for which SymPy's solver produces candidate roots that do NOT satisfy the equation and discards them by checking
+        ("radical", sp.Eq(sp.sqrt(x), x - 2), []),
+        ("radical-expr", sp.sqrt(2 * x + 3) - x, []),
+        ("rational-pole", sp.Eq((x**2 - 3 * x + 2) / (x - 1), 0), []),
     ]
 
 
@@ -228,15 +232,19 @@ def check_scalar(ctx):
             ctx.ob(f"solve_for_scalar:{name}", "inconclusive", f"no solution returned ({type(e).__name__})")
             continue
         expr = (f.lhs - f.rhs) if isinstance(f, sp.Eq) else f
-        ok = bool(sols)
+        ok = isinstance(sols, (list, tuple)) and bool(sols)
         worst = "unsat"
-        for eq in sols:
+        for eq in (sols if ok else []):
             if not isinstance(eq, sp.Eq) or eq.lhs != x:
                 ok = False
                 continue
             enc = VecEnc()
             try:
-                resid = enc.tr(expr.subs(x, eq.rhs))
+                val = expr.subs(x, eq.rhs)
+                if val.has(sp.nan, sp.zoo, sp.oo, -sp.oo):
+                    worst = "sat"          # the returned value is a pole of the equation, not a solution
+                    continue
+                resid = enc.tr(val)
                 d = []
                 for cnd in dom:
                     d.append(enc.cond(cnd) if isinstance(cnd, sp.Basic) else cnd)
@@ -292,11 +300,13 @@ else:
     try:
         sols = solve_for_scalar(f, x)
         expr = (f.lhs - f.rhs) if isinstance(f, sp.Eq) else f
+        if not isinstance(sols, (list, tuple)) or not sols: bad = True; print("returned", sols); sols = []
         for eq in sols:
-            val = nv.scal(expr.subs(x, eq.rhs)) if eq.lhs == x else 1
+            sub = expr.subs(x, eq.rhs) if eq.lhs == x else sp.S.One
+            if sub.has(sp.nan, sp.zoo, sp.oo, -sp.oo): print(eq, "is a pole of the equation"); bad = True; continue
+            val = nv.scal(sub)
             print(eq, "residual", sp.N(val))
             if abs(sp.N(val)) > 1e-12: bad = True
-        if not sols: bad = True
     except Exception as e:
         print("raised", e); bad = True
 if bad:
